@@ -23,6 +23,11 @@ probe 180, shutdown 60, term 60, staleRunLock 60; for `sb`: booting 100, probe 3
      rate-limit error in turn, then ok → `lists=<n>`: Instances() calls seen, capped at script length + 1
   rc <0|1>                                                       Pool.reportSSHConnected for an instance whose worker is (1) / is not (0)
      in the pool → `ok` (a nil-dereference panic before the fix of F15b)
+  tg <old tag r|h|d|-> <new r|h|d> <type tag ok 0|1> <extra tag 0|1>   SetIdleBehavior on an Idle worker whose instance carries
+     InstanceSetID, InstanceSecret, InstanceType (right or stale), IdleBehavior (old or missing) and maybe one more tag
+     → `set=none` or `set=<k=v;…>` (sorted): the tag set passed to Instance.SetTags
+  wc <starting> <running>                                        the worker is dropped by Pool.sync → worker.Close()
+     → `closed=1 held=<0|1>`: the executor was closed, with / without the pool mutex held
   o1 <st<u>|pa<u/…|->|sd<u>,…>                                 runner objects of one Idle run-mode worker: StartContainer (the
      `crunch-run --detach` stays outstanding), probe applied with the listed uuids, completion of the outstanding start
      → `<S> sg=<…> rg=<…> ex=<…>`, or `panic close of closed channel` (cannot happen since the fix of F15a)
@@ -173,6 +178,30 @@ def stepW (f : List String) : Option String :=
     match reportSSHConnected (if k then [1] else []) 1 with
     | some _ => pure "ok"
     | none => pure "panic runtime error: invalid memory address or nil pointer dereference"
+  | ["tg", old, new, tok, extra] => do
+    let ibName : String → Option String := fun x => match x with
+      | "r" => some "run" | "h" => some "hold" | "d" => some "drain" | _ => none
+    let nw ← ibName new
+    let tok ← parseBool tok
+    let extra ← parseBool extra
+    let base : Tags := [("InstanceSetID", "set1"), ("InstanceSecret", "sec1"),
+                        ("InstanceType", if tok then "type1" else "stale")]
+    let t1 : Tags ← (if old == "-" then some base else (ibName old).map (fun o => base ++ [("IdleBehavior", o)]))
+    let t2 : Tags := if extra then t1 ++ [("zone", "x")] else t1
+    match saveTags t2 "InstanceType" "IdleBehavior" "type1" nw with
+    | none => pure "set=none"
+    | some t =>
+      let kv := (t.map (fun p => p.1 ++ "=" ++ p.2)).mergeSort (fun a b => decide (a ≤ b))
+      pure ("set=" ++ ";".intercalate kv)
+  | ["wc", sg, rg] => do
+    let _ ← parseUs sg
+    let _ ← parseUs rg
+    let evs := workerClose
+    let closed := evs.count .executorClose
+    let held := match evs.idxOf? .executorClose, evs.idxOf? .unlock with
+      | some i, some j => i < j
+      | _, _ => false
+    pure s!"closed={closed} held={b2s held}"
   | ["o1", ops] => do
     let ops ← (ops.splitOn ",").mapM (fun o =>
       if o.startsWith "st" then (o.drop 2).toString.toNat?.map RWOp.accept
